@@ -1,6 +1,6 @@
 (** Model of object listing, lookup and purge of the file-system store
-    (src/ocfl/store/fs.rs:39-40, 126-264, 328-355, 559-626, 974-1143, 1212-1304;
-     src/ocfl/repo.rs:237-271), as of /repo 01aa490 (repairs 38fe584, 4564259, 3fb070d, 01aa490).
+    (src/ocfl/store/fs.rs:39-40, 126-274, 338-365, 569-636, 984-1153, 1222-1314;
+     src/ocfl/repo.rs:237-271), as of /repo 2517003 (repairs 38fe584, 4564259, 3fb070d, 01aa490, 3802aa0).
 
     A repository is an abstract directory tree.  [walk] is [InventoryIter::next]
     (depth-first walk, object root = directory holding a FILE whose name starts
@@ -80,7 +80,7 @@ Fixpoint names_unique (t : tree) : bool :=
               forallb (fun e => let '(_, c) := e in names_unique c) es
   end.
 
-(** * Object roots: fs.rs:1212-1226 [is_object_root] *)
+(** * Object roots: fs.rs:1222-1236 [is_object_root] *)
 Definition is_decl_entry (e : name * tree) : bool :=
   match snd e with
   | File _ => starts_with K_OBJECT_NAMASTE_FILE_PREFIX (fst e)   (* entry_path.is_file() && name.starts_with(..) *)
@@ -89,15 +89,15 @@ Definition is_decl_entry (e : name * tree) : bool :=
 
 Definition is_object_root (es : entries) : bool := existsb is_decl_entry es.
 
-(** * The walk: fs.rs:1078-1142.
+(** * The walk: fs.rs:1088-1152.
     The stack of ReadDir iterators is a depth-first pre-order traversal: entering
-    a sub-directory pushes the current iterator (l.1130) and resumes it after the
-    sub-directory is exhausted (l.1088-1092), i.e. structural recursion.
+    a sub-directory pushes the current iterator (l.1140) and resumes it after the
+    sub-directory is exhausted (l.1098-1102), i.e. structural recursion.
 
     [walk_gen deep] is the loop for the entries of one directory.  With
     [deep = false] no directory is skipped by name: that is what the loop does
     for every directory other than the iterator's root, because the test of
-    l.1112-1116 is [name == extensions && parent == self.root] (38fe584).
+    l.1122-1126 is [name == extensions && parent == self.root] (38fe584).
     [deep = true] skips the name at every depth: the walk BEFORE 38fe584
     ([walk_before_fix], kept for the historical lemmas only). *)
 Fixpoint walk_gen (deep : bool) (t : tree) : list objroot :=
@@ -107,15 +107,15 @@ Fixpoint walk_gen (deep : bool) (t : tree) : list objroot :=
       flat_map (fun e =>
         let '(n, c) := e in
         match c with
-        | File _ => []                                         (* l.1107 ftype.is_dir() *)
+        | File _ => []                                         (* l.1117 ftype.is_dir() *)
         | Dir ces =>
             if deep && bytes_eqb n EXT then []
-            else if is_object_root ces then [([n], ces)]       (* l.1118-1128: yield, no descent *)
-            else map (fun r => (n :: fst r, snd r)) (walk_gen deep c)   (* l.1129-1137 *)
+            else if is_object_root ces then [([n], ces)]       (* l.1128-1138: yield, no descent *)
+            else map (fun r => (n :: fst r, snd r)) (walk_gen deep c)   (* l.1139-1147 *)
         end) es
   end.
 
-(** the iterator's root (l.1012-1024: the first ReadDir is the root's): its own
+(** the iterator's root (l.1022-1034: the first ReadDir is the root's): its own
     entries are the only ones whose parent is [self.root] *)
 Definition walk (t : tree) : list objroot :=
   match t with
@@ -124,18 +124,18 @@ Definition walk (t : tree) : list objroot :=
       flat_map (fun e =>
         let '(n, c) := e in
         match c with
-        | File _ => []                                         (* l.1107 *)
+        | File _ => []                                         (* l.1117 *)
         | Dir ces =>
-            if bytes_eqb n EXT then []                         (* l.1112-1116 *)
-            else if is_object_root ces then [([n], ces)]       (* l.1118-1128 *)
-            else map (fun r => (n :: fst r, snd r)) (walk_gen false c)   (* l.1129-1137: parent <> root below *)
+            if bytes_eqb n EXT then []                         (* l.1122-1126 *)
+            else if is_object_root ces then [([n], ces)]       (* l.1128-1138 *)
+            else map (fun r => (n :: fst r, snd r)) (walk_gen false c)   (* l.1139-1147: parent <> root below *)
         end) es
   end.
 
 Definition walk_before_fix (t : tree) : list objroot := walk_gen true t.
 
 (** * JSON text of the id field, as serde_json writes it
-    (fs.rs:953-957: to_writer_pretty / to_writer; [id] is the first field of
+    (fs.rs:963-967: to_writer_pretty / to_writer; [id] is the first field of
     [Inventory], inventory.rs:30-31).  serde_json escapes exactly: the quote,
     the backslash and the control characters below 0x20 (\b \t \n \f \r, else
     \u00XX with lower-case hex digits); everything else, non-ASCII included, is
@@ -172,7 +172,7 @@ Definition serialize_inventory (pretty : bool) (id rest : bytes) : bytes :=
   (if pretty then bs [123; 10; 32; 32] ++ b """id"": """ else b "{""id"":""")
     ++ json_escape id ++ QUO :: rest.
 
-(** * The id pre-filter: fs.rs:39-40, 1046-1075.
+(** * The id pre-filter: fs.rs:39-40, 1056-1085.
     Regex QUOTE id QUOTE \s* : \s* QUOTE ( [^QUOTE]+ ) QUOTE  (= K_OBJECT_ID_MATCHER, pinned in
     Proofs/ListingFacts.v; Unicode mode: \s is the White_Space property),
     applied by grep-searcher line by line (the pattern can match the line
@@ -253,7 +253,7 @@ Fixpoint extract_object_id (s : bytes) : option bytes :=
       else extract_object_id r
   end.
 
-(** * Parsing the id back (serde_json::from_slice, fs.rs:1288-1292), restricted to
+(** * Parsing the id back (serde_json::from_slice, fs.rs:1298-1302), restricted to
     inventories whose first member is the id (what rocfl and every writer that
     follows the spec's field order produces).  Returns the UNESCAPED id. *)
 Definition json_ws (a : N) : bool := (a =? 32) || (a =? 9) || (a =? 10) || (a =? 13).
@@ -359,7 +359,7 @@ Definition parse_inventory_id (text : bytes) : option bytes :=
   | [] => None
   end.
 
-(** fs.rs:1256-1304 [parse_inventory] / [resolve_inventory_path]: the mutable-HEAD inventory wins if that
+(** fs.rs:1266-1314 [parse_inventory] / [resolve_inventory_path]: the mutable-HEAD inventory wins if that
     path exists, else <root>/inventory.json; the result here is the parsed id *)
 Definition parse_inventory (ces : entries) : res bytes :=
   let parse c := match parse_inventory_id c with Some i => Ok i | None => Err end in
@@ -373,7 +373,7 @@ Definition parse_inventory (ces : entries) : res bytes :=
       end
   end.
 
-(** * The iterator: fs.rs:1026-1044 [create_if_matches] *)
+(** * The iterator: fs.rs:1036-1054 [create_if_matches] *)
 Inductive item :=
 | IOk (p : path) (id : bytes)      (* Some(Ok(inventory)) *)
 | IErr (p : path).                 (* Some(Err(_)): the iterator continues *)
@@ -384,23 +384,23 @@ Definition item_of_res (p : path) (r : res bytes) : item :=
 Definition create_if_matches (matcher : option (bytes -> bool)) (r : objroot) : list item :=
   let '(p, ces) := r in
   match matcher with
-  | None => [item_of_res p (parse_inventory ces)]                          (* l.1042 *)
+  | None => [item_of_res p (parse_inventory ces)]                          (* l.1052 *)
   | Some m =>
       match lookup1 ces INV with
       | Some (File c) =>
           match extract_object_id c with
-          | Some x => if m x then [item_of_res p (parse_inventory ces)] else []   (* l.1031-1037 *)
-          | None => [IErr p]                                               (* l.1069: no match *)
+          | Some x => if m x then [item_of_res p (parse_inventory ces)] else []   (* l.1041-1047 *)
+          | None => [IErr p]                                               (* l.1079: no match *)
           end
-      | _ => [IErr p]                                                      (* l.1060: search_path failed *)
+      | _ => [IErr p]                                                      (* l.1070: search_path failed *)
       end
   end.
 
 Definition iter_items (matcher : option (bytes -> bool)) (t : tree) : list item :=
   flat_map (create_if_matches matcher) (walk t).
 
-(** repo.rs:237-248 / fs.rs:340-355: [glob = None] lists everything, else the
-    compiled glob is applied to the EXTRACTED id (fs.rs:998-1008). *)
+(** repo.rs:237-248 / fs.rs:350-365: [glob = None] lists everything, else the
+    compiled glob is applied to the EXTRACTED id (fs.rs:1008-1018). *)
 Definition list_objects (gmatch : bytes -> bytes -> bool) (t : tree) (glob : option bytes) : list item :=
   iter_items (option_map gmatch glob) t.
 
@@ -414,14 +414,14 @@ Definition listed_ids (l : list item) : list bytes :=
 Definition listed_errors (l : list item) : list path :=
   flat_map (fun it => match it with IOk _ _ => [] | IErr p => [p] end) l.
 
-(** * Lookup: fs.rs:126-264, 328-335 *)
+(** * Lookup: fs.rs:126-274, 338-345 *)
 Inductive getres :=
 | Found (p : path) (id : bytes)
 | NotFound
 | Corrupt          (* RocflError::CorruptObject: another id lives at that path *)
 | GenErr.          (* the path exists but no inventory can be parsed there *)
 
-(** fs.rs:1294-1304 [resolve_inventory_path(..).0.exists()]: the mutable-HEAD
+(** fs.rs:1304-1314 [resolve_inventory_path(..).0.exists()]: the mutable-HEAD
     inventory path exists (whatever it is), else <dir>/inventory.json exists *)
 Definition has_inventory (ces : entries) : bool :=
   match lookup_path (Dir ces) MUTABLE_HEAD_INV with
@@ -429,7 +429,7 @@ Definition has_inventory (ces : entries) : bool :=
   | None => match lookup1 ces INV with Some _ => true | None => false end
   end.
 
-(** fs.rs:243-244 (01aa490): only a DIRECTORY that holds an object declaration or
+(** fs.rs:253-254 (01aa490): only a DIRECTORY that holds an object declaration or
     an inventory file is taken for an object *)
 Definition object_like (t : tree) (p : path) : bool :=
   match lookup_path t p with
@@ -437,26 +437,48 @@ Definition object_like (t : tree) (p : path) : bool :=
   | _ => false                                          (* nothing there, or a regular file *)
   end.
 
-(** fs.rs:232-264.  is_relative_descendant (l.235-237, 1230-1240, 3fb070d): of
+(** some PROPER prefix of [p] is an object root: the walk over the components of
+    fs.rs:239-247 (3802aa0) and, identically, of validate_object_root l.185-193
+    ([components.peek().is_some() && dir.is_dir() && is_object_root(dir)]) *)
+Fixpoint nested_in_object (t : tree) (p : path) : bool :=
+  match p with
+  | [] => false
+  | n :: q =>
+      match q with
+      | [] => false                                     (* the last component is not tested *)
+      | _ :: _ =>
+          match t with
+          | File _ => false
+          | Dir es =>
+              match lookup1 es n with
+              | Some (Dir ces) => is_object_root ces || nested_in_object (Dir ces) q
+              | _ => false                              (* missing or a file: is_dir() fails from here on *)
+              end
+          end
+      end
+  end.
+
+(** fs.rs:232-274.  is_relative_descendant (l.235-237, 1240-1250, 3fb070d): of
     the paths representable here (Normal components) only the empty one fails. *)
 Definition get_inventory_by_path (t : tree) (id : bytes) (p : path) : getres :=
   match p with
   | [] => NotFound                                      (* l.235-237 *)
   | _ :: _ =>
-      if object_like t p then                           (* l.243-246 *)
+      if nested_in_object t p then NotFound             (* l.239-247: inside another object *)
+      else if object_like t p then                      (* l.253-256 *)
         match lookup_path t p with
         | Some (Dir ces) =>
             match parse_inventory ces with
-            | Ok i => if bytes_eqb i id then Found p i else Corrupt    (* l.247-260 *)
-            | _ => GenErr                               (* l.247: a declaration without readable inventory *)
+            | Ok i => if bytes_eqb i id then Found p i else Corrupt    (* l.257-270 *)
+            | _ => GenErr                               (* l.257: a declaration without readable inventory *)
             end
         | _ => NotFound                                 (* unreachable: object_like *)
         end
-      else NotFound                                     (* l.261-263: a plain directory, a file, nothing *)
+      else NotFound                                     (* l.271-273: a plain directory, a file, nothing *)
   end.
 
-(** the lookup BEFORE 01aa490: anything that exists at the path was parsed as an
-    object (historical lemmas only) *)
+(** the lookup BEFORE 01aa490 and 3802aa0: anything that exists at the path was
+    parsed as an object (historical lemmas only) *)
 Definition get_inventory_by_path_before_fix (t : tree) (id : bytes) (p : path) : getres :=
   match lookup_path t p with
   | None => NotFound
@@ -475,13 +497,13 @@ Fixpoint first_ok (l : list item) : getres :=
   | IErr _ :: r => first_ok r                           (* l.223-226: logged, continue *)
   end.
 
-(** fs.rs:206-230, 987-994: the matcher compares the EXTRACTED id with the request *)
+(** fs.rs:206-230, 997-1004: the matcher compares the EXTRACTED id with the request *)
 Definition scan_for_inventory (t : tree) (id : bytes) : getres :=
   first_ok (iter_items (Some (bytes_eqb id)) t).
 
 (** the handle's id->path cache (fs.rs:48-50; a HashMap: at most one path per id).
     Written by get_object_root_path (l.149-151), scan_for_inventory (l.218-220)
-    and, since 4564259, evicted by purge_object (l.570-573). *)
+    and, since 4564259, evicted by purge_object (l.580-583). *)
 Definition cache := list (bytes * path).
 
 Fixpoint cache_get (c : cache) (id : bytes) : option path :=
@@ -530,32 +552,14 @@ Definition find_root (layout : option (bytes -> path)) (c : cache) (t : tree) (i
 (** * Guards of create and purge: fs.rs:160-204 [validate_object_root] on a path
     of Normal components.  Refused: the empty path (l.196-201), a first component
     named [extensions] (l.168-174), a PROPER prefix that is an object root
-    (l.186-194: [components.peek().is_some() && current.is_dir() && is_object_root]). *)
-Fixpoint nested_in_object (t : tree) (p : path) : bool :=
-  match p with
-  | [] => false
-  | n :: q =>
-      match q with
-      | [] => false                                     (* the last component is not tested *)
-      | _ :: _ =>
-          match t with
-          | File _ => false
-          | Dir es =>
-              match lookup1 es n with
-              | Some (Dir ces) => is_object_root ces || nested_in_object (Dir ces) q
-              | _ => false                              (* missing or a file: is_dir() fails from here on *)
-              end
-          end
-      end
-  end.
-
+    (l.185-193, [nested_in_object] above). *)
 Definition validate_object_root (t : tree) (p : path) : bool :=
   match p with
   | [] => false
   | n :: _ => negb (bytes_eqb n EXT) && negb (nested_in_object t p)
   end.
 
-(** fs.rs:1243-1251 [contains_object_root]: WalkDir with min_depth 2 - a FILE
+(** fs.rs:1253-1261 [contains_object_root]: WalkDir with min_depth 2 - a FILE
     named like an object declaration in some sub-directory, at any depth *)
 Fixpoint has_decl_file (t : tree) : bool :=
   match t with
@@ -566,8 +570,8 @@ Fixpoint has_decl_file (t : tree) : bool :=
 Definition contains_object_root (ces : entries) : bool :=
   existsb (fun e => match snd e with Dir _ => has_decl_file (snd e) | File _ => false end) ces.
 
-(** * purge: removal of a directory tree (fs.rs:603-611).  (clean_dirs_up,
-    l.613-623, then removes EMPTY ancestors, which no listing can observe.) *)
+(** * purge: removal of a directory tree (fs.rs:613-621).  (clean_dirs_up,
+    l.623-633, then removes EMPTY ancestors, which no listing can observe.) *)
 Fixpoint remove_at (t : tree) (p : path) : tree :=
   match t with
   | File c => File c
@@ -583,32 +587,32 @@ Fixpoint remove_at (t : tree) (p : path) : tree :=
 
 Inductive purge_res := POk | PErr.
 
-(** fs.rs:578-611: what purge does once the object root path [p] is resolved *)
+(** fs.rs:588-621: what purge does once the object root path [p] is resolved *)
 Definition purge_at (t : tree) (id : bytes) (p : path) : purge_res * tree :=
-  if negb (validate_object_root t p) then (PErr, t)                (* l.578 *)
+  if negb (validate_object_root t p) then (PErr, t)                (* l.588 *)
   else
-    let removed := (POk, remove_at t p) in                         (* l.603-611 *)
+    let removed := (POk, remove_at t p) in                         (* l.613-621 *)
     let kept := (POk, t) in
     match lookup_path t p with
-    | None => kept                                                 (* l.580, 603: nothing there *)
-    | Some (File _) => kept                                        (* l.581-583 *)
+    | None => kept                                                 (* l.590, 613: nothing there *)
+    | Some (File _) => kept                                        (* l.591-593 *)
     | Some (Dir ces) =>
         if is_object_root ces then
           match parse_inventory ces with
-          | Ok i => if bytes_eqb i id then removed else kept       (* l.586-590: another object's root *)
+          | Ok i => if bytes_eqb i id then removed else kept       (* l.596-600: another object's root *)
           | _ => removed                                           (* no readable inventory: debris *)
           end
-        else if contains_object_root ces then kept                 (* l.591-594 *)
+        else if contains_object_root ces then kept                 (* l.601-604 *)
         else removed                                               (* debris without objects beneath *)
     end.
 
-(** fs.rs:559-626 [purge_object]: result, repository afterwards, cache afterwards.
-    The cached path is forgotten as soon as the root is resolved (l.570-573,
+(** fs.rs:569-636 [purge_object]: result, repository afterwards, cache afterwards.
+    The cached path is forgotten as soon as the root is resolved (l.580-583,
     4564259), whatever happens next. *)
 Definition purge_object (layout : option (bytes -> path)) (c : cache) (t : tree) (id : bytes)
   : purge_res * tree * cache :=
   match find_root layout c t id with
-  | (None, c1) => (POk, t, c1)                                     (* l.563 *)
+  | (None, c1) => (POk, t, c1)                                     (* l.573 *)
   | (Some p, c1) => (purge_at t id p, cache_remove c1 id)
   end.
 
